@@ -12,7 +12,7 @@ def Quiescent (s : St) : Prop :=
 
 /-- actor `a` has taken the coroutine out of the slot and has not yet resumed / scheduled it -/
 def Holds (s : St) : Actor → Prop
-  | .K => s.kpc = .k4r ∨ s.kpc = .kc4
+  | .K => s.kpc = .k4r ∨ s.kpc = .kc4 ∨ s.kpc = .k2r
   | .T => s.tpc = .t1
   | .C => s.cpc = .c4
   | .V t => s.vpcs t = .v2
@@ -57,12 +57,12 @@ theorem quiescent_of_stuck (s : St) (hq : ∀ a, a ≠ Actor.P → a ≠ Actor.D
     cases hv : s.vpcs t <;> first | rfl | (have h2 := stepV_isSome s t (by simp [hv]); rw [show stepV s t .go = none from this] at h2; simp at h2)
 
 theorem holds_unique (s : St) (h : Inv s) (a b : Actor) (ha : Holds s a) (hb : Holds s b) : a = b := by
-  have h1 := h.heldK; have h2 := h.heldKc; have h3 := h.heldT; have h4 := h.heldC; have h5 := h.heldV
+  have h1 := h.heldK; have h2 := h.heldKc; have h2t := h.heldKt; have h3 := h.heldT; have h4 := h.heldC; have h5 := h.heldV
   cases a <;> cases b <;> simp only [Holds] at ha hb <;> grind
 
 theorem holds_excl (s : St) (h : Inv s) (a : Actor) (ha : Holds s a) :
     s.wco = false ∧ s.rq = 0 ∧ s.ypend = false ∧ s.ppc = .u3wait := by
-  have h1 := h.heldK; have h2 := h.heldKc; have h3 := h.heldT; have h4 := h.heldC; have h5 := h.heldV
+  have h1 := h.heldK; have h2 := h.heldKc; have h2t := h.heldKt; have h3 := h.heldT; have h4 := h.heldC; have h5 := h.heldV
   have h6 := h.slot; have h7 := h.queued; have h8 := h.ytail; have h9 := h.u3
   cases a <;> simp only [Holds] at ha <;> grind
 
@@ -83,5 +83,60 @@ theorem no_lost_wakeup (s : St) (h : Inv s) (hq : Quiescent s) (hw : s.w = true)
   · rfl
   · exfalso
     cases hl : s.loc <;> grind
+
+/-- the code variant never changes -/
+theorem step_fix (s s' : St) (a : Actor) (e : Env) (hs : step s a e = some s') : s'.fix = s.fix := by
+  cases a <;> simp only [step] at hs
+  · unfold stepP at hs
+    split at hs <;> (try (split at hs)) <;> simp only [Option.some.injEq, reduceCtorEq] at hs <;>
+      first | contradiction | (subst hs; simp [ret, cpanic, yieldNow])
+  · unfold stepK ktouch at hs
+    dsimp only [] at hs
+    split at hs <;> (try (split at hs)) <;> simp only [Option.some.injEq, reduceCtorEq] at hs <;>
+      first | contradiction | (subst hs; simp [resume, sched]; try (split <;> rfl))
+  · unfold stepT at hs
+    split at hs <;> (try (split at hs)) <;> simp only [Option.some.injEq, reduceCtorEq] at hs <;>
+      first | contradiction | (subst hs; simp [resume]; try (split <;> rfl))
+  · unfold stepC at hs
+    split at hs <;> (try (split at hs)) <;> simp only [Option.some.injEq, reduceCtorEq] at hs <;>
+      first | contradiction | (subst hs; simp [sched])
+  · split at hs
+    · simp only [Option.some.injEq] at hs; subst hs; simp [sched]
+    · contradiction
+  · split at hs
+    · simp only [Option.some.injEq] at hs; subst hs; simp only [resume]; split <;> rfl
+    · contradiction
+  · unfold stepD at hs
+    split at hs <;> (try (split at hs)) <;> simp only [Option.some.injEq, reduceCtorEq] at hs <;>
+      first | contradiction | (subst hs; rfl)
+  · unfold stepV at hs
+    split at hs <;> (try (split at hs)) <;> simp only [Option.some.injEq, reduceCtorEq] at hs <;>
+      first | contradiction | (subst hs; simp [sched])
+
+theorem run_fix (s : St) (sched : List (Actor × Env)) : (run s sched).fix = s.fix := by
+  induction sched generalizing s with
+  | nil => rfl
+  | cons ae r ih =>
+    obtain ⟨a, e⟩ := ae
+    simp only [run]
+    split
+    · next s' hs => rw [ih, step_fix _ _ _ _ hs]
+    · exact ih _
+
+theorem inv_reachPinned (sched : List (Actor × Env)) : Inv (run initPinned sched) := inv_run _ _ inv_initPinned
+
+/-- fixed code: a timed parker whose deadline has passed is not left in the slot when nobody else has a step and
+    the timer thread cannot pop its entry any more -/
+theorem timeout_returns (s : St) (h : Inv s) (hf : s.fix = true) (hq : Quiescent s) (hpop : step s .T .popOwn = none)
+    (hd : s.dur ≠ 0) (hdue : s.due = true) : s.ppc ≠ .u3wait := by
+  obtain ⟨hk, ht, hc, hy, hr, hv⟩ := hq
+  have hown : ¬ (s.own = .armed ∨ s.own = .delreq) := by
+    intro ho
+    simp [step, stepT, ht, ho, hdue] at hpop
+  intro hp
+  have hsu : susp s.ppc = true := by simp [hp, susp]
+  have hv1 := hv s.lastV
+  destruct_inv
+  cases hl : s.loc <;> grind
 
 end MayVerif.Park
